@@ -22,6 +22,7 @@ enum Pending {
     None,
     Step(Event),
     CvWait(usize), // waiting on condvar id (mutex already released)
+    CvWaitForever(usize), // the same without a time-out
 }
 
 #[derive(Clone, Debug, PartialEq)]
@@ -158,6 +159,11 @@ impl Observer for Sched {
         if cv == 0 { return Some(false); } // probe: this observer decides waits itself
         Some(self.park(Pending::CvWait(cv)))
     }
+
+    fn cv_wait_forever(&self, cv: usize) -> Option<()> {
+        self.park(Pending::CvWaitForever(cv));
+        Some(())
+    }
 }
 
 fn enabled(core: &Core, id: usize) -> Option<&'static str> {
@@ -172,6 +178,7 @@ fn enabled(core: &Core, id: usize) -> Option<&'static str> {
             _ => Some("step"),
         },
         Pending::CvWait(cv) => if core.notified.contains(cv) { Some("wake") } else { Some("timeout") },
+        Pending::CvWaitForever(cv) => if core.notified.contains(cv) { Some("wake") } else { None },
         Pending::None => None,
     }
 }
@@ -181,7 +188,7 @@ fn describe(core: &Core, id: usize) -> Value {
     match &t.pending {
         Pending::Step(ev) => json!({"t": id, "wants": format!("{:?}", ev.op), "o": short(ev.label), "id": ev.obj, "call": core.calls.get(&id).cloned().unwrap_or_default(),
                                    "held_by": core.mutex_owner.get(&ev.obj).or(core.rw_writer.get(&ev.obj)).map(|x| *x as i64).unwrap_or(-1)}),
-        Pending::CvWait(cv) => json!({"t": id, "wants": "CvWait", "id": cv}),
+        Pending::CvWait(cv) | Pending::CvWaitForever(cv) => json!({"t": id, "wants": "CvWait", "id": cv}),
         Pending::None => json!({"t": id, "state": format!("{:?}", t.state)}),
     }
 }
@@ -333,7 +340,7 @@ pub fn run_program(prog: &Value, out: &mut dyn Write) {
         }
         let pick = choice.unwrap_or_else(|| if !solid.is_empty() { solid[0] } else { en[0].0 });
         let kind = en.iter().find(|(i, _)| *i == pick).unwrap().1;
-        if let Pending::CvWait(cv) = core.threads[&pick].pending.clone() {
+        if let Pending::CvWait(cv) | Pending::CvWaitForever(cv) = core.threads[&pick].pending.clone() {
             if kind == "wake" { core.notified.remove(&cv); }
             core.log.push(json!({"t": pick, "k": if kind == "wake" { "CvWake" } else { "CvTimeout" }, "o": "CV", "id": cv, "arg": 0, "call": ""}));
         }
